@@ -140,6 +140,7 @@ def run(ctx):
         protocheck.roundtrip_stream(ctx, g, batch, ir, auxinfo, bs, "D7-%d" % i)
         ctx.case(repr(bs), True)
         ctx.count("entry-point-later-module-cases")
+    moved_loaded_module(ctx, g)
     batch.run()
     ctx.cov["traces_validated_against_impl"] = n
     ctx.cov["rule"] = ("%d random self-contained IRs (0-3 modules; sections, intervals with and without address, code/data blocks, proxies, symbols with referent / value incl. 0 / "
@@ -147,6 +148,40 @@ def run(ctx):
                        "module, AuxData at IR and module level with node references) saved and loaded; boundary classes hit are counted in distribution; non-trivial = file longer "
                        "than 60 bytes" % n)
     ctx.sample({"stream": "RT", "n": n})
+
+
+def moved_loaded_module(ctx, g):
+    """Known finding (recorded, not repaired): an unread table of a LOADED module resolves its UUID entries through the IR that
+    loaded it.  Once the module is moved into another IR (merging files: built through the public API, self-contained), the table
+    reads plain UUIDs for nodes that are attached to the IR it now belongs to -- and after save + load of that IR it reads node
+    objects: the decoded values differ across the round trip.  A table read BEFORE the move must round-trip (control)."""
+    import io
+    for read_first in (True, False):
+        src = g.IR()
+        m = g.Module(name="m", ir=src)
+        bi = g.ByteInterval(size=4, section=g.Section(name="s", module=m))
+        blk = g.CodeBlock(size=1, byte_interval=bi)
+        m.aux_data["alignment"] = g.AuxData({blk: 16}, "mapping<UUID,uint64_t>")
+        buf = io.BytesIO()
+        src.save_protobuf_file(buf)
+        loaded = g.IR.load_protobuf_file(io.BytesIO(buf.getvalue()))
+        lm = loaded.modules[0]
+        if read_first:
+            lm.aux_data["alignment"].data
+        merged = g.IR()
+        merged.modules.append(lm)
+        before = lm.aux_data["alignment"].data
+        out = io.BytesIO()
+        merged.save_protobuf_file(out)
+        again = g.IR.load_protobuf_file(io.BytesIO(out.getvalue()))
+        after = again.modules[0].aux_data["alignment"].data
+        ctx.case("moved-loaded-module:%s" % read_first, True)
+        kb = ["node" if isinstance(k, g.Node) else "uuid" for k in before]
+        ka = ["node" if isinstance(k, g.Node) else "uuid" for k in after]
+        if kb != ka:
+            ctx.add("oracle", "lazy-table-bound-to-loading-ir" if not read_first else "roundtrip:aux",
+                    "a loaded module moved into another IR%s: its table reads %s keys in the IR that is saved and %s keys in the IR loaded from that file"
+                    % (" after its table was read" if read_first else " before its table was read", kb, ka), {"read_first": read_first})
 
 
 def replay(ctx, path):
